@@ -26,6 +26,10 @@ func renderStorable(s atree.Storable) string {
 		return fmt.Sprintf("%d:R%s", s.ByteSize(), hx.IDStr(atree.SlabID(x)))
 	case hx.TV:
 		return fmt.Sprintf("%d:v%d", x.Size, x.Pay)
+	case hx.SomeStorable:
+		return fmt.Sprintf("%d:W(%s)", s.ByteSize(), renderStorable(x.S))
+	case atree.Slab:
+		return fmt.Sprintf("%d:%s", s.ByteSize(), atree.VerifDumpSlab(x, hx.Describe))
 	}
 	return fmt.Sprintf("%d:%s", s.ByteSize(), hx.Describe.Storable(s))
 }
